@@ -135,7 +135,40 @@ def check_shock_continues(seed):
     return None
 
 
-CHECKS = [("generate_next contract", check_generate_next), ("shock continues from the changed level", check_shock_continues), ("zero-volatility path", check_zero_vol), ("covariance algebra", check_covariance)]
+def check_market_shock(seed):
+    """the same clause through the real Market.change_fundamental_price and the simulator's clock: after a shock at time t the recorded
+    fundamental values continue from the changed level across generator chunk boundaries; values recorded before t are unchanged"""
+    from pams.market import Market
+    from pams.simulator import Simulator
+    rng = random.Random(seed)
+    sim = Simulator(prng=random.Random(seed))
+    sim.fundamentals._generate_chunk_size = rng.choice([3, 5, 100])
+    init, drift = rng.choice([100.0, 300.0]), rng.choice([0.0, 0.001, -0.002])
+    m = Market(market_id=0, prng=random.Random(1), simulator=sim, name="m")
+    m.setup({"tickSize": 1.0, "marketPrice": init, "fundamentalPrice": init, "fundamentalDrift": drift, "fundamentalVolatility": 0.0})
+    sim._add_market(m)
+    sim.fundamentals.add_market(market_id=0, initial=init, drift=drift, volatility=0.0)       # as SequentialRunner._generate_markets does
+    t = rng.choice([0, 0, 1, 2, 4, 7]); scale = rng.choice([0.9, 1.25]); window = rng.choice([1, 1, 2])
+    horizon = t + window + rng.randint(1, 9)
+    level = None; seen = {}
+    for step in range(horizon + 1):
+        sim._update_time_on_market(m)
+        now = m.get_time()
+        if t <= now < t + window:
+            m.change_fundamental_price(scale)
+            level = (m.get_fundamental_price() , now)
+        seen[now] = m.get_fundamental_price()
+        if level is not None and now >= level[1]:
+            want = level[0] * math.exp(drift * (now - level[1]))
+            if abs(seen[now] - want) > 1e-9 * want:
+                return f"shock x{scale} at t={level[1]}: fundamental value at time {now} is {seen[now]}, expected the changed level continued: {want}"
+        for q, v in seen.items():
+            if q < now and m.get_fundamental_price(q) != v and not (t <= q < t + window):
+                return f"the value recorded for the earlier time {q} changed"
+    return None
+
+
+CHECKS = [("generate_next contract", check_generate_next), ("shock continues from the changed level", check_shock_continues), ("shock through Market.change_fundamental_price", check_market_shock), ("zero-volatility path", check_zero_vol), ("covariance algebra", check_covariance)]
 
 
 def search(seed, tier, obligation, hints):
@@ -147,9 +180,20 @@ def search(seed, tier, obligation, hints):
             why = chk(sd)
             if why:
                 return {"found": True, "input": {"check": name, "seed": sd}, "observed": {"function": "Fundamentals", "clause": why}, "witness_key": "Fundamentals|" + name, "cases": cases}
+    if obligation and obligation.startswith("Market.change_fundamental_price"):
+        # the shock also acts inside whole runs with the built-in events
+        from . import events
+        r2 = events.search(seed, tier, "", hints)
+        if r2.get("found"):
+            r2["input"] = {"events": r2["input"]}
+            return r2
+        cases += r2.get("cases", 0)
     return {"found": False, "cases": cases}
 
 
 def replay(inp):
+    if "events" in inp:
+        from . import events
+        return events.replay(inp["events"])
     why = dict(CHECKS)[inp["check"]](inp["seed"])
     return {"violated": bool(why), "clause": why}
